@@ -239,6 +239,23 @@ fn keybytes<B: Backend>(acc: &mut Acc) {
             let mut ext = local_key_bytes(&ks).to_vec();
             ext.extend_from_slice(&pk[..pk.len().min(32)]);
             sources.push((format!("{} local key || public key", S::NAME), ext));
+            if S::VER != crate::refmodel::Ver::V1 {
+                // a valid key with bytes inserted in the middle / doubled / one byte removed: both ends
+                // still look like the key, only the length is another kind's (or nobody's)
+                for (what, vb) in [("secret", &sk), ("public", &pk)] {
+                    let h = vb.len() / 2;
+                    for n in [1usize, 16, 32] {
+                        let mut v = vb[..h].to_vec();
+                        v.extend(crate::rng::det_bytes(hash_of(&ks), n as u64, n));
+                        v.extend_from_slice(&vb[h..]);
+                        sources.push((format!("{} {what} key with {n} bytes inserted in the middle", S::NAME), v));
+                    }
+                    sources.push((format!("{} {what} key doubled", S::NAME), [&vb[..], &vb[..]].concat()));
+                    let mut v = vb[..h].to_vec();
+                    v.extend_from_slice(&vb[h + 1..]);
+                    sources.push((format!("{} {what} key with the middle byte removed", S::NAME), v));
+                }
+            }
         }
     });
     for len in 0..=128usize {
